@@ -54,7 +54,8 @@
    tables, so that every sub-sector is found in the slice table) and groups_ok.
 
    Proofs: Proofs/FuseGenProofs.v, Proofs/FuseInsertGenProofs.v.  Hand-modelled as before:
-   `_fuse_blocks_via_concat` (Model/FuseConcat.v, C05c) and `unfuse` (Array.a_unfuse). *)
+   `_fuse_blocks_via_concat` (Model/FuseConcat.v, C05c); `unfuse` / `unfuse_all` are translated too
+   (Gen/UnfuseGen.v, Props/C05j.v). *)
 From SV Require Import Base.Prelude Base.Sym Base.Tensor Model.Sectors Model.Array Model.Wf
   Proofs.OrderProofs Proofs.FuseProofs Proofs.HelpersProofs.
 From SV Require Base.PyList Gen.Helpers Gen.FuseGen.
